@@ -328,7 +328,7 @@ func c10Gen(c *core.Ctx) c10Case {
 	case 11:
 		return c10Case{Value: "NOERROR;PTR;" + pick([]string{"", ".", "bad..host", "-x.example", "bad_host."}), Expect: c10Invalid, Note: "bad PTR"}
 	case 12: // TXT
-		t := pick([]string{"hello", "hello world", "", "a;b;c", "v=spf1 -all", "x=1"})
+		t := pick([]string{"hello", "hello world", "", "a;b;c", "v=spf1 -all", "x=1", strings.Repeat("a", 255), strings.Repeat("b", 256), strings.Repeat("c", 257), strings.Repeat("long text ", 120), strings.Repeat("d", 4000)})
 		cs := c10Case{Value: "NOERROR;TXT;" + t, RR: dns.TypeTXT, Note: "TXT"}
 		if t != "" {
 			cs.Expect = c10Valid
